@@ -392,7 +392,7 @@ func checkQRMasks(c *Ctx, r *Report) {
 					for j := 0; j < 12; j++ {
 						v, err := c.rpfExpr(dp, rs.Results[0], map[types.Object]*Val{ps[0]: vint(int64(i)), ps[1]: vint(int64(j))}, nil)
 						if err != nil {
-							bad = err.Error()
+							bad = "?" + err.Error()
 							break
 						}
 						row, col := i, j
@@ -442,7 +442,7 @@ func checkQRMasks(c *Ctx, r *Report) {
 				for y := 0; y < 12; y++ {
 					res, err := c.rpfCall(encFd, ep, []*Val{vint(int64(k)), vint(int64(x)), vint(int64(y))}, nil)
 					if err != nil {
-						bad = err.Error()
+						bad = "?" + err.Error()
 						break
 					}
 					if len(res) != 2 || res[0].K != VBool || res[1].K != VNil || res[0].B != refQRMask(k, y, x) {
@@ -629,7 +629,7 @@ func checkQRModes(c *Ctx, r *Report) {
 			verVal := &Val{K: VStruct, Fields: map[string]*Val{"versionNumber": vint(int64(ver))}}
 			res, err := c.rpfCall(fd, p, []*Val{verVal}, &rpf{env: map[types.Object]*Val{ro: recv}})
 			if err != nil {
-				bad = err.Error()
+				bad = "?" + err.Error()
 				break
 			}
 			want := m.widths[refQRCountClass(ver)]
@@ -638,7 +638,7 @@ func checkQRModes(c *Ctx, r *Report) {
 				break
 			}
 		}
-		if bad != "" && len(bad) > 0 && bad[0] == '/' {
+		if bad != "" && len(bad) > 0 && bad[0] == '?' {
 			r.Undecided("T-MODE", key, c.pos(fd.Pos()), bad)
 		} else {
 			r.Check(bad == "", "T-MODE", key, c.pos(fd.Pos()), bad)
@@ -883,7 +883,7 @@ func checkQRFunctionPattern(c *Ctx, r *Report) {
 				// statements of the outer body preceding the inner loop, then the inner body; `continue` = skip
 				err := foldLoopBodies(c, p, env, hooks, outer, inner)
 				if err != nil {
-					bad = err.Error()
+					bad = "?" + err.Error()
 					break
 				}
 				corner := (a == 0 && (b == 0 || b == max-1)) || (a == max-1 && b == 0)
@@ -910,7 +910,7 @@ type rpfContinue struct{}
 // foldLoopBodies folds, for fixed values of the loop variables (in env), the statements of the outer loop
 // body that precede the inner loop and then the inner loop's body. `continue` ends the fold normally.
 func foldLoopBodies(c *Ctx, p *packages.Package, env map[types.Object]*Val, hooks *rpf, outer, inner *ast.ForStmt) (err error) {
-	r := &rpf{c: c, p: p, env: env, callHook: hooks.callHook, selHook: hooks.selHook}
+	r := &rpf{c: c, p: p, env: env, callHook: hooks.callHook, selHook: hooks.selHook, idxHook: hooks.idxHook, stHook: hooks.stHook}
 	defer func() {
 		if x := recover(); x != nil {
 			if re, ok := x.(*rpfErr); ok {
@@ -1036,7 +1036,7 @@ func checkQRFormatPlacement(c *Ctx, r *Report) {
 				return nil, false
 			}}
 			if err := foldLoopBodies(c, p, env, hooks, nil, loop); err != nil {
-				bad = err.Error()
+				bad = "?" + err.Error()
 				break
 			}
 			w1 := [2]int64{int64(refQRFormatPos1[i][0]), int64(refQRFormatPos1[i][1])}
@@ -1064,7 +1064,7 @@ func checkQRFormatPlacement(c *Ctx, r *Report) {
 			}
 		}
 	}
-	if bad != "" && bad[0] == '/' {
+	if bad != "" && bad[0] == '?' {
 		r.Undecided("T-FMTPOS", key, c.pos(loop.Pos()), bad)
 		return
 	}
@@ -1258,7 +1258,7 @@ func checkQRVersionPlacement(c *Ctx, r *Report) {
 					return true
 				})
 				if err := foldLoopBodies(c, p, env, hooks, loops[0], loops[1]); err != nil {
-					bad = err.Error()
+					bad = "?" + err.Error()
 					break
 				}
 				w1, w2 := [2]int64{i, d - 11 + j}, [2]int64{d - 11 + j, i}
@@ -1269,7 +1269,7 @@ func checkQRVersionPlacement(c *Ctx, r *Report) {
 			}
 		}
 	}
-	if bad != "" && bad[0] == '/' {
+	if bad != "" && bad[0] == '?' {
 		r.Undecided("T-VERPOS", key+".positions", c.pos(loops[0].Pos()), bad)
 		return
 	}
@@ -1491,7 +1491,7 @@ func checkQRBasicPlacement(c *Ctx, r *Report) {
 				return nil, false
 			}}
 			if err := foldLoopBodies(c, p, map[types.Object]*Val{iv: vint(i)}, h2, nil, loop); err != nil {
-				bad = err.Error()
+				bad = "?" + err.Error()
 				break
 			}
 			want := (i + 1) % 2
